@@ -254,6 +254,12 @@ class Engine:
         if isinstance(sa, SeqS) and isinstance(sb, SeqS):
             return z3.And(a.d[1] == b.d[1], Q.forall(
                 self, z3.IntVal(0), a.d[1], lambda k: self.py_eq(V.seq_select(a, k), V.seq_select(b, k)), "eqk"))
+        if isinstance(sa, MapS) and isinstance(sb, MapS) and sa == sb:
+            k = z3.Const(V.fresh_name("mk"), sa.key.sorts()[0])
+            va = V.from_leaves(sa.val, [z3.Select(x, k) for x in a.d[1]])
+            vb = V.from_leaves(sb.val, [z3.Select(x, k) for x in b.d[1]])
+            return z3.ForAll([k], z3.And(z3.Select(a.d[0], k) == z3.Select(b.d[0], k),
+                                         z3.Implies(z3.Select(a.d[0], k), self.py_eq(va, vb))))
         if type(sa) is not type(sb):
             return z3.BoolVal(False)
         raise OutOfSubset(f"== on {sa} / {sb}")
@@ -674,7 +680,7 @@ class Engine:
             if name == "is_integer":
                 return V.vconc(BuiltinMethod(v, "float.is_integer"))
         if isinstance(s, MapS):
-            if name in ("items", "keys"):
+            if name in ("items", "keys", "get", "setdefault"):
                 return V.vconc(BuiltinMethod(v, "dict." + name))
         if isinstance(s, ConcS):
             o = v.d
